@@ -158,8 +158,18 @@ func (r *runner) oneCase(e TypeEntry, cfgMask int, cfgErr bool) {
 		return
 	}
 	if !e.WithCfg {
-		if _, err := rr.Plugin.Synchronize(ctx, &api.SynchronizeRequest{}); err != nil {
-			viol("synchronize-failed", err.Error())
+		// no Synchronize handler: the stub itself answers, and must keep to the split protocol
+		n := 1 + r.seq%3
+		for m := 0; m < n; m++ {
+			req := &api.SynchronizeRequest{More: m < n-1, Pods: []*api.PodSandbox{{Id: fmt.Sprintf("%s-sp%d", id, m)}}}
+			rsp, err := rr.Plugin.Synchronize(ctx, req)
+			if err != nil {
+				viol("synchronize-failed", err.Error())
+				break
+			}
+			if rsp.GetMore() != req.More || len(rsp.GetUpdate()) != 0 {
+				viol("synchronize-split", fmt.Sprintf("plugin without a Synchronize handler, message %d of %d (more=%v): reply more=%v updates=%d", m+1, n, req.More, rsp.GetMore(), len(rsp.GetUpdate())))
+			}
 		}
 		rec.Take()
 	} else {
@@ -291,9 +301,10 @@ func (r *runner) oneCase(e TypeEntry, cfgMask int, cfgErr bool) {
 				continue
 			}
 			if hasResult {
-				okUpd := len(gotUpd) == len(rec.Updates)
+				wantUpd := append(append([]*api.ContainerUpdate(nil), rec.Updates...), OwnUpdate(ctr.GetId()), &api.ContainerUpdate{ContainerId: ctr.GetId() + "-sibling"})
+				okUpd := len(gotUpd) == len(wantUpd)
 				for i := 0; okUpd && i < len(gotUpd); i++ {
-					okUpd = proto.Equal(gotUpd[i], rec.Updates[i])
+					okUpd = proto.Equal(gotUpd[i], wantUpd[i])
 				}
 				if !okUpd {
 					viol("result/"+name, fmt.Sprintf("updates returned by handler %s reached the runtime changed: %v", name, gotUpd))
